@@ -4,12 +4,12 @@ package main
 
 import (
 	"bytes"
-	"sort"
 	"context"
 	"fmt"
 	"os"
 	"os/exec"
 	"path/filepath"
+	"sort"
 	"strings"
 	"sync"
 	"time"
